@@ -36,6 +36,8 @@ def main():
         print(f"no check for {prop}", file=sys.stderr)
         return 2
     ctx = common.Ctx(prop, a.tier, seed)
+    ctx.is_replay = bool(a.replay)
+    ctx.skip_lean = bool(a.skip_lean)
     try:
         common.use_repo()
         if not a.skip_lean:
